@@ -25,18 +25,18 @@ func init() {
 
 // sync option bits
 const (
-	yOwnerDims  = 1 << iota // pods vary in owner, label match, name shape
-	yPause                  // pause annotation symbolic
-	yDeleting               // deletion timestamp symbolic
-	yStaleCache             // the API copy of the set may differ from the cached one
-	yRevDims                // extra revisions with owner / label / marker variations
-	yUndefaulted            // spec as admitted by the CRD, not defaulted (C15)
-	yHealthDims             // pods vary in health and revision (else healthy, update revision)
-	yOrphanRevs             // the set's own revisions may be orphans (adoption path)
-	yStatusConflict         // the status write may hit a conflict and be retried
-	yCacheLosesSet          // the set may leave the informer cache while the reconcile is in flight
-	ySelectorShapes         // the selector may be empty ({} matches every pod) or a DoesNotExist expression (C15)
-	ySelectorExpr           // the selector has matchLabels and a NotIn expression; a pod may satisfy the labels only
+	yOwnerDims      = 1 << iota // pods vary in owner, label match, name shape
+	yPause                      // pause annotation symbolic
+	yDeleting                   // deletion timestamp symbolic
+	yStaleCache                 // the API copy of the set may differ from the cached one
+	yRevDims                    // extra revisions with owner / label / marker variations
+	yUndefaulted                // spec as admitted by the CRD, not defaulted (C15)
+	yHealthDims                 // pods vary in health and revision (else healthy, update revision)
+	yOrphanRevs                 // the set's own revisions may be orphans (adoption path)
+	yStatusConflict             // the status write may hit a conflict and be retried
+	yCacheLosesSet              // the set may leave the informer cache while the reconcile is in flight
+	ySelectorShapes             // the selector may be empty ({} matches every pod) or a DoesNotExist expression (C15)
+	ySelectorExpr               // the selector has matchLabels and a NotIn expression; a pod may satisfy the labels only
 )
 
 // sync monitor bits
